@@ -25,6 +25,7 @@ package main
 //        `<open ids>/<semi ids>/<closed ids>/<Contains open,semi,closed>/<ShapeContains semi per shape>`
 
 import (
+	"math/big"
 	"math"
 	"sort"
 	"strings"
@@ -1148,9 +1149,25 @@ func (g *G) c06QueryEdges(all [][]s2.Point, m int) []s2.Point {
 				a, b = b, a
 			}
 		}
+		if c04Antiparallel(a, b) {
+			continue // antipodal DIRECTIONS (b = -k*a, also with k != 1): the edge is not defined, out of contract
+		}
 		q = append(q, a, b)
 	}
 	return q
+}
+
+// c04Antiparallel: the exact cross product of a and b is zero and their dot product is negative, i.e. the two
+// vectors point in exactly opposite directions (not necessarily with the same length: (s,-s,0) and (-s',s',0)).
+func c04Antiparallel(a, b s2.Point) bool {
+	rat := func(x float64) *big.Rat { return new(big.Rat).SetFloat64(x) }
+	mul := func(x, y float64) *big.Rat { return new(big.Rat).Mul(rat(x), rat(y)) }
+	sub := func(x, y *big.Rat) *big.Rat { return new(big.Rat).Sub(x, y) }
+	if sub(mul(a.Y, b.Z), mul(a.Z, b.Y)).Sign() != 0 || sub(mul(a.Z, b.X), mul(a.X, b.Z)).Sign() != 0 || sub(mul(a.X, b.Y), mul(a.Y, b.X)).Sign() != 0 {
+		return false
+	}
+	d := new(big.Rat).Add(new(big.Rat).Add(mul(a.X, b.X), mul(a.Y, b.Y)), mul(a.Z, b.Z))
+	return d.Sign() < 0
 }
 
 func genC06Idx(g *G) {
